@@ -3,7 +3,11 @@
 use crate::{Cfg, Report};
 
 pub mod attr;
+pub mod c01_image;
+pub mod c02_total;
+pub mod ideal;
 pub mod c03_clip;
+pub mod scene;
 pub mod c04_cover;
 pub mod c05_frag;
 pub mod rast;
@@ -13,6 +17,8 @@ pub type MonFn = fn(&Cfg, &mut Report);
 
 pub fn lookup(prop: &str) -> Option<MonFn> {
     Some(match prop {
+        "C01" => c01_image::run,
+        "C02" => c02_total::run,
         "C03" => c03_clip::run,
         "C04" => c04_cover::run,
         "C05" => c05_frag::run,
